@@ -111,7 +111,7 @@ def shared_run(ctx) -> Dict[str, Any]:
     os.makedirs(cache_dir, exist_ok=True)
     key = _digest(ctx)
     path = os.path.join(cache_dir, f'batchdb-{key}.pkl')
-    lock = open(os.path.join(cache_dir, 'batchdb.lock'), 'w')
+    lock = open(os.path.join(cache_dir, f'batchdb-{key}.lock'), 'w')      # per tree/seed/tier: scratch-tree runs do not wait for each other
     fcntl.flock(lock, fcntl.LOCK_EX)
     try:
         if os.path.exists(path) and os.environ.get('VERIF_NO_CACHE') != '1':
@@ -148,7 +148,7 @@ def shared_run(ctx) -> Dict[str, Any]:
                 doc['error'] = ('CoqEvalError', str(e)[-3000:])
         doc['seconds'] = round(time.time() - t0, 1)
         doc['cache'] = 'miss'
-        for old in glob.glob(os.path.join(cache_dir, 'batchdb-*.pkl')):
+        for old in glob.glob(os.path.join(cache_dir, 'batchdb-*.pkl')) + glob.glob(os.path.join(cache_dir, 'batchdb-*.lock')):
             try:
                 if time.time() - os.path.getmtime(old) > 3 * 3600:      # keep recent entries: scratch-tree runs have their own keys
                     os.remove(old)
